@@ -92,10 +92,22 @@ def check(ctx: Ctx) -> None:
     # ---------------- R12.2 ---------------------------------------------------------
     fp = model.fi(FIT, "_fit_process")
     unp = unpack_of_param(fp.node, "args")
-    if not unp or "original_circuit" not in unp:
-        raise AnalysisError("_fit_process: worker tuple with original_circuit not found")
+    fc0 = model.fi(FIT, "fit_circuit")
+    gen0 = [n for n in walk_ordered(fc0.node) if isinstance(n, ast.Assign) and norm(n.targets[0]) == "args" and isinstance(n.value, ast.GeneratorExp) and isinstance(n.value.elt, ast.Tuple)]
+    if not unp or len(gen0) != 1 or len(gen0[0].value.elt.elts) != len(unp):
+        raise AnalysisError("_fit_process / fit_circuit: worker tuple not found or arity mismatch")
+    # which tuple position carries the caller's circuit?
+    RC0 = Resolver(fc0.node)
+    pos_c = [i for i, e in enumerate(gen0[0].value.elt.elts) if RC0.text(e, gen0[0]) == "circuit"]
     ctx.instance("R12.2", "_fit_process: the input circuit is only deep-copied")
-    uses = [n for n in walk_ordered(fp.node) if isinstance(n, ast.Name) and n.id == "original_circuit" and isinstance(n.ctx, ast.Load)]
+    if len(pos_c) != 1:
+        ctx.violation("R12.2", "fit_circuit:worker-tuple-circuit", FIT, gen0[0],
+                      "fit_circuit does not hand the caller's circuit itself to each task (e.g. one shared working copy for all method/weight combinations): "
+                      "tasks run serially then overwrite each other's parameters")
+        cname_in = unp[0]
+    else:
+        cname_in = unp[pos_c[0]]
+    uses = [n for n in walk_ordered(fp.node) if isinstance(n, ast.Name) and n.id == cname_in and isinstance(n.ctx, ast.Load)]
     bad = [n for n in uses if not (isinstance(parent(n), ast.Call) and dotted(parent(n).func) == "deepcopy")]
     if uses and not bad:
         ctx.ok()
@@ -106,7 +118,7 @@ def check(ctx: Ctx) -> None:
     R = Resolver(fp.node)
     idef = [b for b in assignments(fp.node, "identifiers") if b[2] == "assign"]
     cdef = [b for b in assignments(fp.node, "circuit") if b[2] == "assign"]
-    ok = len(idef) == 1 and norm(idef[0][0].value) == "generate_fit_identifiers(circuit)" and len(cdef) == 1 and norm(cdef[0][0].value) == "deepcopy(original_circuit)" \
+    ok = len(idef) == 1 and norm(idef[0][0].value) == "generate_fit_identifiers(circuit)" and len(cdef) == 1 and norm(cdef[0][0].value) == f"deepcopy({cname_in})" \
         and cdef[0][0].lineno < idef[0][0].lineno
     mini = [c for c in calls_in(fp.node) if dotted(c.func) == "minimize"]
     if ok and len(mini) == 1:
